@@ -191,10 +191,15 @@ def unit_vote_fold(U):
     A_, B_, W_, T_ = z3.Int("A"), z3.Int("B"), z3.Int("w"), z3.Int("T")
     vars_ = {"A": A_, "B": B_, "w": W_, "T": T_}
 
-    def mk_count(ctx, key, va, vb, shape):
+    def mk_count(ctx, key, va, vb, shape, count=None):
+        """the tally in the state `shape`, built INSIDE the object the real code created before the loop (a dict of dicts on
+        the pinned tree; a dict of Counters or the like works as well: entries are set by item assignment in first-seen order)"""
         for v in (A_, B_, W_, T_):
             ctx.assume(v >= 0)
-        count = {k: {} for k in constants.dialect.keys()}
+        if count is None:
+            count = {k: {} for k in constants.dialect.keys()}
+        if not isinstance(count, dict) or set(count.keys()) != set(constants.dialect.keys()) or not all(isinstance(x, dict) and len(x) == 0 for x in count.values()):
+            raise Undecided("the tally before the loop is not an empty mapping per dialect key any more (the invariant of C09.fold is stated over that shape)")
         if shape != "empty":
             for k in count:
                 if k == key:
@@ -257,7 +262,7 @@ def unit_vote_fold(U):
                     def setup(env, c, iterable):
                         if "count" not in env.vars:
                             raise Undecided("the tally is no longer kept in a local named `count`")
-                        cnt = mk_count(c, key, va, vb, shape)
+                        cnt = mk_count(c, key, va, vb, shape, env.vars["count"])
                         holder["before"] = {k: dict(v) for k, v in cnt.items()}
                         env.store("count", cnt)
                         d = dict(constants.dialect)
@@ -309,7 +314,7 @@ def unit_vote_fold(U):
                 def hook(interp, env, node, iterable):
                     if "count" not in env.vars:
                         raise Undecided("the tally is no longer kept in a local named `count`")
-                    env.store("count", mk_count(Ctx.current, key, va, vb, shape))
+                    env.store("count", mk_count(Ctx.current, key, va, vb, shape, env.vars["count"]))
                     return None
                 it.loop_hooks[("_choose_dialect", 0)] = hook
                 return it.call(H._choose_dialect, [[Peeked(dict(constants.dialect), ["k0", "k1"], SInt(W_))]], {})
@@ -356,8 +361,11 @@ def unit_vote_fold(U):
         o = SStr([Val(z3.String("o"))])
 
         def skip(interp, env, node, iterable):
-            cnt = {k: {(tuple(v) if isinstance(v, list) else v): 1} for k, v in constants.dialect.items()}
-            env.store("count", cnt)
+            cnt = env.vars.get("count")
+            if not isinstance(cnt, dict) or set(cnt.keys()) != set(constants.dialect.keys()) or not all(isinstance(x, dict) for x in cnt.values()):
+                raise Undecided("the tally before the loop is not a mapping per dialect key any more")
+            for k, v in constants.dialect.items():
+                cnt[k][tuple(v) if isinstance(v, list) else v] = 1
             return None
         it.loop_hooks[("_choose_dialect", 0)] = skip
 
